@@ -20,7 +20,7 @@ CLAIMS = {
    note=TB + 'Level other: all functional units are bounded (<= 8 keys, chains <= 3). Rehash bucket placement is proved (HashMap_rehash_bin). Not decided: Set algebra, String keys, clone/merge. Histories by induction over the proved operations.',
    technique='CBMC code contracts (DFCC) with constant-bound sortedness / chain shape'),
  'C20': dict(level='proof', design='6 C20',
-   text='Algebraic clause only: the expression text of Matrix4/Matrix3 inverse() and det() is parsed on every run; A*adj = adj*A = d*I entrywise (so d != 0 implies M*inverse(M) = I), det() = Leibniz determinant = d, det(AB) = det(A)det(B); each is an SMT query that is unsat on z3 4.8, z3 5.1 and cvc5. solve()/solve_() (both bodies cut, CBMC, BOUNDED to square 1x1..5x5 and over-determined 2x1..5x3 shapes with 1 or 2 right-hand sides, element values arbitrary): the caller\'s A and b blocks are never written, x comes back in a block of its own with one row per unknown, every element and permutation-vector access is in range, solve_ recurses at most once.',
+   text='Algebraic clause only: the expression text of Matrix4/Matrix3 inverse() and det() is parsed on every run; A*adj = adj*A = d*I entrywise (so d != 0 implies M*inverse(M) = I), det() = Leibniz determinant = d, det(AB) = det(A)det(B); each is an SMT query that is unsat on z3 4.8, z3 5.1 and cvc5. solve()/solve_() (both bodies cut, CBMC, BOUNDED to square 1x1..5x5 and over-determined 2x1..5x3 shapes with 1..3 right-hand sides, element values arbitrary): the caller\'s A and b blocks are never written, x comes back in a block of its own with one row per unknown, every element and permutation-vector access is in range, each right-hand side is eliminated against the original coefficients, solve_ recurses at most once.',
    note='Trusted: the 100-line expression parser/VC generator in vf/vcgen.py, z3, cvc5. Floating point treated as real arithmetic. NOT decided: that the x of solve() satisfies A x = b (values are not tracked), least squares optimality, floating residual bounds, quaternion/axis-angle/Euler conversions. The solve unit is bounded, not counted as proved.',
    technique='own VC generator over the extracted expression text + SMT (QF_NRA) on three solvers; CBMC on the extracted solve()/solve_() bodies with matrix storage abstracted to block events (bounded)'),
  'C03': dict(level='proof', design='6 C03',
@@ -48,7 +48,7 @@ CLAIMS = {
    text='One step (loop body) of XdlParser::parse proved for EVERY byte and EVERY parser configuration satisfying a representation invariant (context-stack shape, comment markers, state/container consistency, unicode counter): '
         'no stack underflow, indices in range, invariant preserved, at most one push-back per character, container contexts paired with value-list pushes/pops; the constructor establishes the invariant. '
         'Prefix rejection ingredients: open containers decrease only on a closing bracket (one per input character), a string is left only at its quote, and value() returns a value only when nothing is open; an escape returns to the state it was met in; a value is placed into an object only under a pending member name (put() never reads an empty name stack); decode() always feeds the flushing blank. '
-        'By induction over the input bytes: total and memory-safe on any byte string, and chunk-independent (the step has no state outside the parser object). Json::decode / Xdl::decode start from the constructor state (new parser, or a kept one completely reset from any earlier state: Json_decode_parser_state).',
+        'By induction over the input bytes: total and memory-safe on any byte string, and chunk-independent (the step has no state outside the parser object and neither reads nor moves the input pointer beyond its character: frame condition). Json::decode / Xdl::decode start from the constructor state (new parser, or a kept one completely reset from any earlier state: Json_decode_parser_state).',
    note=TB + 'Containers are ghost models: context stack = 3-entry window + depth with C01 top/pop preconditions, token buffer = 15 characters + length, Var tree = counters. NOT decided: agreement with an independent JSON parser on all RFC 8259 documents, the value tree built by put()/Var, atof, prefix rejection as a separate theorem.',
    technique='CBMC code contract (inductive invariant) on the extracted loop body'),
  'C07': dict(level='proof', design='6 C07',
